@@ -27,6 +27,12 @@ def model_struct(m):
         if isinstance(w, M.Wire):
             d.update(segtype=w.segtype, tmin=w.taper_min, tmax=w.taper_max)
         d['seg'] = [[float(x) for x in s.p2] for s in w.segments]
+        # distributed loads are properties of the geo object (a junction pulse takes them from both of its wires,
+        # an insulation also changes the effective radius), whether or not the object owns a pulse
+        sk, ct = getattr(w, 'skin_load', None), getattr(w, 'coat_load', None)
+        d['skin'] = None if sk is None else float(sk.conductivity)
+        d['coat'] = None if ct is None else [float(ct.radius), float(ct.epsilon_r)]
+        d['r_eff'] = float(w.r)
         objs.append(d)
     srcs = [(s.idx, complex(s.voltage)) for s in m.sources]
     per_pulse = collections.defaultdict(list)
